@@ -104,11 +104,15 @@ structure Defects where
       served (peer_outbound_service.rs:484-494, no revocation path) -/
   allowedNeverRevoked : Bool
   /-- on a room-definition event the room is admitted when the key merely *appears* in a user list
-      (`Room::has_user`, room.rs:91-106), enabled or not (peer_inbound_service.rs:450-457) -/
+      (`Room::has_user`, room.rs:91-106), enabled or not. FIXED in /repo by 81b6434
+      (peer_inbound_service.rs:455-459 now tests `is_user_valid_at(key, now())`): off in `asImplemented`;
+      the switch is kept so that the regression witness stays checkable. -/
   hasUserCountsDisabled : Bool
 deriving DecidableEq, Repr
 
-def Defects.asImplemented : Defects := { allowedNeverRevoked := true, hasUserCountsDisabled := true }
+def Defects.asImplemented : Defects := { allowedNeverRevoked := true, hasUserCountsDisabled := false }
+/-- the code before fix 81b6434 -/
+def Defects.beforeFix : Defects := { allowedNeverRevoked := true, hasUserCountsDisabled := true }
 def Defects.none : Defects := { allowedNeverRevoked := false, hasUserCountsDisabled := false }
 
 def insertRoom (l : List RoomId) (r : RoomId) : List RoomId := if l.contains r then l else l ++ [r]
